@@ -7,6 +7,11 @@ require (
 	github.com/PapaCharlie/go-restli/v2 v2.0.0
 )
 
+require (
+	github.com/dave/jennifer v1.7.0 // indirect
+	github.com/pkg/errors v0.9.1 // indirect
+)
+
 replace github.com/PapaCharlie/go-restli => /repo
 
 replace github.com/PapaCharlie/go-restli/v2 => /repo/v2
